@@ -191,6 +191,8 @@ def impl_fit(case):
     with tempfile.TemporaryDirectory() as d:
         write_pkg(d, case)
         fitter = make_fitter(d, case)
+        for w in case.get('warmup', []):          # other sources the same Fitter fitted before (their results are not examined)
+            fitter.fit(make_source(w))
         info = fitter.fit(make_source(case['src']))
         return info_out(info, fitter)
 
@@ -339,6 +341,10 @@ def shrink(case):
     """smaller variants of a fit case: fewer models, fewer bands, rounder numbers (used by the replay shrinker)"""
     import copy
     nm, nb = len(case['names']), len(case['wav'])
+    if case.get('warmup'):
+        c = copy.deepcopy(case)
+        c['warmup'] = c['warmup'][:-1]
+        yield c
     for i in range(nm):
         if nm > 1:
             c = copy.deepcopy(case)
@@ -351,6 +357,8 @@ def shrink(case):
             del c['wav'][j]
             for k in ('flags', 'flux', 'err'):
                 del c['src'][k][j]
+                for w in c.get('warmup', []):
+                    del w[k][j]
             for row in c['flux']:
                 del row[j]
             if 'theta' in c:
@@ -363,6 +371,6 @@ def shrink(case):
     if len(case['ext']['wav']) > 3:
         c = copy.deepcopy(case)
         keep = [0, len(c['ext']['wav']) // 2, len(c['ext']['wav']) - 1]
-        c['ext'] = dict(wav=[c['ext']['wav'][i] for i in keep], chi=[c['ext']['chi'][i] for i in keep])
+        c['ext'] = dict(wav=[c['ext']['wav'][i] for i in keep], chi=[c['ext']['chi'][i] for i in keep], unit=c['ext'].get('unit', 'micron'))
         if c['ext']['wav'][0] <= V_UM <= c['ext']['wav'][-1]:
             yield c
